@@ -344,22 +344,48 @@ func cmdCheck(args []string) {
 	}
 	// 2. bounded stand-ins / sanity runs of the same contracts on the real code
 	if !*noRAC {
-		var wg sync.WaitGroup
-		sem := make(chan struct{}, 6)
+		byProg := map[*Program][]string{}
 		for _, f := range fucs {
-			if _, _, err := f.p.racSource(f.key, racTier, racCap, seed, nil); err != nil {
-				f.rac = &RACResult{Func: f.key, Error: err.Error()}
-				continue
+			byProg[f.p] = append(byProg[f.p], f.key)
+		}
+		var wg sync.WaitGroup
+		var mu sync.Mutex
+		racRes := map[*Program]map[string]*RACResult{}
+		for prog, keys := range byProg {
+			// split into a few batches so that they run in parallel
+			nb := 4
+			if len(keys) < 8 {
+				nb = 1
 			}
-			wg.Add(1)
-			go func(f *funcUnderCheck) {
-				defer wg.Done()
-				sem <- struct{}{}
-				defer func() { <-sem }()
-				f.rac = f.p.runRAC(f.key, racTier, racCap, seed, nil, filepath.Join(workDir, "rac"), 1200)
-			}(f)
+			for bi := 0; bi < nb; bi++ {
+				var batch []string
+				for i, k := range keys {
+					if i%nb == bi {
+						batch = append(batch, k)
+					}
+				}
+				if len(batch) == 0 {
+					continue
+				}
+				wg.Add(1)
+				go func(prog *Program, batch []string, bi int) {
+					defer wg.Done()
+					r := prog.runRACBatch(batch, racTier, racCap, seed, nil, filepath.Join(workDir, fmt.Sprintf("rac%d", bi)), 1500)
+					mu.Lock()
+					if racRes[prog] == nil {
+						racRes[prog] = map[string]*RACResult{}
+					}
+					for k, v := range r {
+						racRes[prog][k] = v
+					}
+					mu.Unlock()
+				}(prog, batch, bi)
+			}
 		}
 		wg.Wait()
+		for _, f := range fucs {
+			f.rac = racRes[f.p][f.key]
+		}
 	}
 	// 3. verdicts
 	violations := 0
